@@ -143,8 +143,10 @@ def real_cases(ctx, marker_dir):
                               if 'cd' not in feats else '$ chmod -R a-w ../../ro']
                 if rng.chance(0.4):
                     feats.append('tmp-file')
-                    setup += ['file -rel-tmp mine.txt = mine']
-                    tmp_files.append('mine.txt')
+                    # names Exactly itself might be tempted to use
+                    tf = rng.choice(['mine.txt', 'act.src', 'stdout', 'exit-code', 'stdin', 'act'])
+                    setup += ['file -rel-tmp %s = mine' % tf]
+                    tmp_files.append(tf)
                 if rng.chance(0.3):
                     feats.append('cd in before-assert')
                     before += ['cd -rel-tmp .']
@@ -178,6 +180,22 @@ def real_cases(ctx, marker_dir):
                     act = '%% sh -c "printf %s; printf %s >&2; exit %d"\n    -transformed-by char-case -to-upper' % (
                         sh_printf(out), sh_printf(err), code)
                     exp_out = out.upper()
+                conf = []
+                home_files = {}
+                if ending not in ('act syntax error', 'act validation error') and rng.chance(0.35):
+                    # the other actors (other execution paths for preparing and running the action to check)
+                    script = 'printf %s; printf %s >&2\nexit %d' % (sh_printf(out), sh_printf(err), code)
+                    exp_out = out
+                    feats[:] = [f for f in feats if f != 'act program with -transformed-by']
+                    if rng.chance(0.5):
+                        feats.append('actor: source interpreter')
+                        conf = ['actor = source % sh']
+                        act = script
+                    else:
+                        feats.append('actor: file interpreter')
+                        conf = ['actor = file % sh']
+                        home_files['the-script.sh'] = script + '\n'
+                        act = 'the-script.sh'
                 expect_sds, expect_act = True, True
                 if ending == 'pass':
                     asserts += ['exit-code == %d' % code]
@@ -211,10 +229,11 @@ def real_cases(ctx, marker_dir):
                 elif ending == 'act validation error':
                     act = 'no-such-program-c04-xyz arg'  # rejected by pre-sds validation of the act phase
                     expect_sds = expect_act = False
-                text = '[setup]\n%s\n[act]\n%s\n[before-assert]\n%s\n[assert]\n%s\n[cleanup]\n%s\n' % (
+                text = ('[conf]\n%s\n' % '\n'.join(conf) if conf else '') + '[setup]\n%s\n[act]\n%s\n[before-assert]\n%s\n[assert]\n%s\n[cleanup]\n%s\n' % (
                     '\n'.join(setup), act, '\n'.join(before), '\n'.join(asserts), '\n'.join(cleanup))
                 cases.append({'name': ending, 'features': feats, 'keep': keep, 'text': text, 'expect_sds': expect_sds,
-                              'expect_act': expect_act, 'out': exp_out, 'err': err, 'code': code, 'tmp_files': tmp_files})
+                              'expect_act': expect_act, 'out': exp_out, 'err': err, 'code': code, 'tmp_files': tmp_files,
+                              'home_files': home_files})
     return cases
 
 
@@ -238,6 +257,8 @@ def run_real(ctx, res):
         os.makedirs(d)
         with open(os.path.join(d, 'test.case'), 'w') as f:
             f.write(c['text'])
+        for fn, content in c['home_files'].items():
+            open(os.path.join(d, fn), 'w').write(content)
         for fn in os.listdir(markers):
             os.remove(os.path.join(markers, fn))
         cwd0, env0 = os.getcwd(), dict(os.environ)
@@ -283,6 +304,10 @@ def run_real(ctx, res):
             tdir = os.path.join(sds_root, 'tmp')
             if os.path.isdir(tdir):
                 tmp_ok = sorted(os.listdir(tdir)) == sorted(c['tmp_files'])
+                for tf in c['tmp_files']:
+                    tp = os.path.join(tdir, tf)
+                    if tmp_ok and os.path.isfile(tp) and not os.path.islink(tp):
+                        tmp_ok = open(tp).read() == 'mine'
         obs = {'exit': pr.exit_code, 'stdout': pr.out[:200], 'cwd_restored': cwd_restored, 'environ_same': environ_same,
                'dirs_left': len(left), 'reported_path_is_left_dir': reported, 'layout_ok': layout_ok,
                'result_files_exact': result_ok, 'tmp_untouched': tmp_ok, 'first_setup_instruction_ran_in_act': starts_in_act}
